@@ -746,8 +746,8 @@ META = {
             "guard against a misreading shared with the hand model); extraction (ExtrOcamlBasic only) + drivers.  Tie "
             "hypotheses: message cells < 2^8, table cells < 2^w (needed for the 32/64-bit updates only), message length < "
             "2^64 and nbyte = that length, start value < 2^w; the loops get fuel length+1 (updates, hashes), 257 and 9 "
-            "(generators).  Translator limits: negative signed values are not represented (an operation that would produce "
-            "one is an error of the generated program; the ties show it never happens); forming a pointer past a buffer is "
+            "(generators).  Translator limits: signed values that can be negative are carried in Z, signed OVERFLOW is an "
+            "error of the generated program (the ties show it never happens); forming a pointer past a buffer is "
             "not checked, only accesses are; C strings are byte lists (running off the list before a 0 byte is an error on "
             "both sides).  No axioms (Print Assumptions under every tie theorem: closed).",
     "technique": "Rocq proof (xor-linearity of the CRC step, induction over the message, GF(2) lifting for bit reversal) + translator "
